@@ -145,6 +145,16 @@ theorem c07_encoding_unambiguous (cap : Nat) (hcap : cap ≤ 65535) (t : Table) 
   rw [heq] at r₁
   exact ⟨r₁.2.1.symm.trans r₂.2.1, r₁.2.2.symm.trans r₂.2.2⟩
 
+/-! "Invalid or oversized blocks produce an error, never a silently different
+    list."  The statement planned in DESIGN.md (`c07_invalid_is_error`: every
+    block outside the image of `encodeBlock` is an error) is FALSE of
+    lshpack_dec_decode() as it is — see the witnesses `c07_deviation_*` at the
+    end (trailing-space name trim, absent value string, over-long integers).
+    What holds and is proved instead: the Huffman layer is strict
+    (`c07_huffman_canonical`), two lists never share an encoding
+    (`c07_encoding_unambiguous`), and the three error theorems below, bundled as
+    `c07_invalid_is_error_partial`. -/
+
 /-- Invalid blocks are errors (1): an indexed representation whose index is 0 or
     beyond static + dynamic table is BAD_DATA (→ GOAWAY COMPRESSION_ERROR), and
     nothing is delivered. -/
@@ -203,6 +213,21 @@ theorem c07_truncated_string_is_error (cap : Nat) (huff : Nat) (len : Nat) (avai
   simp [decStr, hd, hshort]
 
 example : decStr 65535 [5, 0x61, 0x62] = .error .badData := by rfl
+
+/-- partial form of the planned `c07_invalid_is_error` (missing: blocks that are
+    invalid only by an over-long integer, an absent value string or a field name
+    with trailing white space are accepted by lshpack, see `c07_deviation_*`) -/
+theorem c07_invalid_is_error_partial (cap : Nat) (d : Dec) :
+    (∀ idx rest, idx < 2 ^ 32 → d.tbl.lookup idx = none →
+      (decodeBlock cap d (encInt 7 128 idx ++ rest)).err = some .badData) ∧
+    (∀ n rest, n < 2 ^ 32 → d.tbl.maxCap < n →
+      (decodeBlock cap d (encInt 5 32 n ++ rest)).err = some .badData) ∧
+    (∀ src s, huffDecode cap src = .ok s → src = huffEncode s) :=
+  ⟨fun idx rest h1 h2 => (c07_bad_index_is_error cap d idx rest h1 h2).1,
+   fun n rest h1 h2 => (c07_oversize_update_is_error cap d n rest h1 h2).1,
+   fun src s h => c07_huffman_canonical cap src s h⟩
+
+example : Dec.init.tbl.lookup 100 = none ∧ Dec.init.tbl.maxCap < 5000 := by decide
 
 /-- The header-id maps that tie HPACK to lighttpd's header ids are mutually
     consistent (tables regenerated from h2.c, http_header.c, lshpack.c on every
